@@ -111,6 +111,10 @@ func HView(di, op, n int) {
 	}
 	// "/.." is clamped at the view's root: the twin path is the cleaned path below d
 	twin := filepath.Join(cd, filepath.Clean(p))
+	if n := len(p); name == "RemoveAll" && (p == "." || n >= 2 && p[n-1] == '.' && p[n-2] == '/') {
+		// RemoveAll refuses a path spelled with a final "." (as os.RemoveAll): keep the spelling
+		twin += "/."
+	}
 	// the fixed second operand exists in every view: its first file
 	qv := map[string]string{"/w": "/b", "/w/a": "/f", "/": "/o"}[cd]
 	qt := filepath.Join(cd, qv)
